@@ -13,14 +13,15 @@ import (
 
 // Image is one directory state a crash could leave behind.
 type Image struct {
-	Kind    string // crash | torn | pl-durable | pl-mixed | pl-torn | pl-zero
-	Snap    *Snapshot
-	Ev      FSEvent
-	TornLen int
-	Cur     int  // index of the model state before the step in flight
-	InFl    bool // a step (transaction / merge) is in flight: state Cur+1 is allowed too
-	Fresh   bool // the newest data segment holds nothing but records of the step in flight (it was started by it)
-	Note    string
+	Kind     string // crash | torn | pl-durable | pl-mixed | pl-torn | pl-zero
+	Snap     *Snapshot
+	Ev       FSEvent
+	TornLen  int
+	Cur      int  // index of the model state before the step in flight
+	InFl     bool // a step (transaction / merge) is in flight: state Cur+1 is allowed too
+	Fresh    bool // the newest data segment holds nothing but records of the step in flight (it was started by it)
+	RootPend bool // sparse mode: the step in flight has persisted a segment's root-index record (with its own, still uncommitted keys in the range) and the next segment does not hold a record yet
+	Note     string
 }
 
 // CrashRec turns one monitored execution into crash images.
@@ -46,6 +47,8 @@ type CrashRec struct {
 	stepWrites   int
 	freshSeg     bool // the step in flight has started a new data segment (its first write went to offset 0)
 	freshCont    int
+	rootPend     bool
+	rootCont     map[int]bool
 
 	Torn     bool
 	Power    bool
@@ -53,8 +56,8 @@ type CrashRec struct {
 	KeepProb float64 // 1 = every event
 
 	// power-loss shadow
-	durable    map[string]string
-	lastUnsync map[string]*FSEvent // last write since the file's last sync
+	durable     map[string]string
+	lastUnsync  map[string]*FSEvent // last write since the file's last sync
 	prevSync    string
 	prevValid   bool
 	prevDirSync bool
@@ -75,6 +78,7 @@ func (cr *CrashRec) SetStep(cur int, inflight bool, phase string) {
 	cr.cur, cr.infl = cur, inflight
 	cr.stepWrites = 0
 	cr.freshSeg = false
+	cr.rootPend = false
 	cr.Mon.SetTx(cur, phase)
 }
 
@@ -153,7 +157,7 @@ func (cr *CrashRec) onEvent(ev *FSEvent) (bool, int, error) {
 	}
 	keep := cr.KeepProb >= 1 || cr.Rng.Float64() < cr.KeepProb
 	if keep {
-		base := Image{Kind: "crash", Snap: snap, Ev: *ev, Cur: cr.cur, InFl: cr.infl, Fresh: cr.infl && cr.freshSeg}
+		base := Image{Kind: "crash", Snap: snap, Ev: *ev, Cur: cr.cur, InFl: cr.infl, Fresh: cr.infl && cr.freshSeg, RootPend: cr.infl && cr.rootPend}
 		if !cr.Power {
 			cr.add(base)
 			if cr.Torn && ev.Op == "write" && len(ev.Data) > 1 {
@@ -172,6 +176,10 @@ func (cr *CrashRec) onEvent(ev *FSEvent) (bool, int, error) {
 	}
 	if cr.infl && ev.Op == "write" && ev.Off == 0 && strings.HasSuffix(ev.Path, ".dat") {
 		cr.freshSeg = true // images taken from the next event on show a segment that only holds records of this step
+		cr.rootPend = false
+	}
+	if cr.infl && ev.Op == "write" && strings.Contains(ev.Path, "bpt/root/") {
+		cr.rootPend = true
 	}
 	if cr.Power && ev.Op == "write" {
 		e := *ev
@@ -496,6 +504,17 @@ func (cr *CrashRec) CheckImages(cfg Cfg, u *Universe, mode string, class string)
 		// use some of the recovered images further: torn images first (the interrupted record is still in the file)
 		nViol := len(cr.C.res.Viol)
 		fresh := img.Fresh && cr.freshCont < 4 && nViol == violBefore
+		if !fresh && img.RootPend && len(cr.rootCont) < 8 && !cr.rootCont[img.Cur] && nViol == violBefore {
+			// the key range persisted for the interrupted segment includes keys of the interrupted transaction: go on
+			// until that segment is rotated a second time (its root-index record is then rewritten in place)
+			fresh = true
+			if cr.rootCont == nil {
+				cr.rootCont = map[int]bool{}
+			}
+			cr.rootCont[img.Cur] = true // one image per interrupted rotation
+			cr.freshCont--
+			cr.C.Stat("images_continued_after_an_interrupted_rotation", 1)
+		}
 		if fresh || cr.continued < cr.ContinueMax && nViol == violBefore && (img.Kind == "torn" && cr.Rng.Intn(2) == 0 || cr.Rng.Intn(12) == 0) {
 			cr.continued++
 			if fresh {
